@@ -39,9 +39,8 @@ def brickwork(radixes: tuple, layers: int) -> list:
     return s
 
 
-def _bfs_part(rad: tuple, lean: bool, depth: int, share: float) -> dict:
-    return {'kind': 'bfs', 'cfg': {'radixes': list(rad), 'lean': lean},
-            'depth': depth, 'share': share,
+def _bfs_part(rad: tuple, lean: bool, depth: int) -> dict:
+    return {'cfg': {'radixes': list(rad), 'lean': lean}, 'depth': depth,
             'name': 'x'.join(map(str, rad)) + f'-depth{depth}' + ('-lean' if lean else '')}
 
 
@@ -50,25 +49,25 @@ def _long_cfg(rad: tuple) -> dict:
 
 
 def plan(tier: str) -> list[dict]:
+    """A list of stages; the parts of one stage share one worker pool."""
     if tier == 'quick':
-        return [
-            _bfs_part((2, 3), False, 2, 0.10),
-            _bfs_part((2, 2, 2), True, 2, 0.12),
-            _bfs_part((2, 2), True, 3, 1.0),
-        ]
+        return [{'kind': 'bfs', 'share': 1.0, 'parts': [
+            _bfs_part((2, 3), False, 2), _bfs_part((2, 2, 2), True, 2),
+            _bfs_part((2, 2), True, 3)]}]
     a, b = (2, 2, 2, 2, 2), (2, 3, 2, 2, 3, 2)
     return [
-        _bfs_part((2, 2), False, 3, 0.16),
-        _bfs_part((2, 3), False, 3, 0.20),
-        _bfs_part((2, 2, 2), True, 3, 0.30),
-        _bfs_part((3, 2, 2), True, 3, 0.40),
-        {'kind': 'dev', 'cfg': _long_cfg(a), 'script': brickwork(a, 4),
-         'share': 0.35, 'name': 'long-5qubits-1deviation'},
-        {'kind': 'dev', 'cfg': _long_cfg(b), 'script': brickwork(b, 3),
-         'share': 0.45, 'name': 'long-6qudits-mixed-1deviation'},
-        {'kind': 'bfs', 'cfg': _long_cfg(a), 'root': brickwork(a, 2), 'depth': 2,
-         'share': 0.6, 'name': 'long-5qubits-2deviations-after-script'},
-        _bfs_part((2, 2), True, 4, 1.0),
+        {'kind': 'bfs', 'share': 0.55, 'parts': [
+            _bfs_part((2, 2), False, 3), _bfs_part((2, 3), False, 3),
+            _bfs_part((2, 2, 2), True, 3), _bfs_part((3, 2, 2), True, 3)]},
+        {'kind': 'dev', 'share': 0.45, 'parts': [
+            {'cfg': _long_cfg(a), 'script': brickwork(a, 4),
+             'name': 'long-5qubits-1deviation'},
+            {'cfg': _long_cfg(b), 'script': brickwork(b, 3),
+             'name': 'long-6qudits-mixed-1deviation'}]},
+        {'kind': 'bfs', 'share': 0.5, 'parts': [
+            {'cfg': _long_cfg(a), 'root': brickwork(a, 2), 'depth': 2,
+             'name': 'long-5qubits-2deviations-after-script'}]},
+        {'kind': 'bfs', 'share': 1.0, 'parts': [_bfs_part((2, 2), True, 4)]},
     ]
 
 
@@ -78,41 +77,45 @@ def run_search(ctx: Ctx, prop: str) -> None:
     methods: Counter = Counter()
     found: dict[str, dict] = {}
     others: Counter = Counter()
-    for part in plan(ctx.tier):
+    for stage in plan(ctx.tier):
         left = t_end - time.time()
-        if left < 3:
-            ctx.cap(f'time budget exhausted before part {part["name"]}')
+        names = [p['name'] for p in stage['parts']]
+        if left < 5:
+            ctx.cap(f'time budget exhausted before {names}')
             continue
-        deadline = time.time() + left * part['share']
-        if part['kind'] == 'bfs':
-            R = histbfs.bfs(MOD, part['cfg'], part['depth'], procs=ctx.procs,
-                            deadline=deadline, root=part.get('root'))
+        deadline = time.time() + left * stage['share']
+        if stage['kind'] == 'bfs':
+            RS = histbfs.bfs_multi(MOD, stage['parts'], procs=ctx.procs,
+                                   deadline=deadline)
         else:
-            R = histbfs.deviations(MOD, part['cfg'], part['script'],
-                                   procs=ctx.procs, deadline=deadline)
-        states += R.states
-        trans += R.transitions
-        nontriv += R.nontrivial
-        maxd = max(maxd, R.max_depth + len(part.get('root', [])))
-        methods.update(R.methods)
-        ctx.part(part['name'], states=R.states, transitions=R.transitions,
-                 broken_states=R.broken_states, max_depth=R.max_depth,
-                 levels=R.levels, completed=R.capped is None)
-        if R.capped:
-            ctx.cap(f'{part["name"]}: {R.capped}')
-        for smp in R.samples[:2]:
-            ctx.sample({'config': part['cfg']['radixes'], **smp})
-        for (p, sig), rec in R.findings.items():
-            if p != prop:
-                others[f'{p}:{sig}'] += rec['count']
-                continue
-            cur = found.get(sig)
-            if cur is None:
-                found[sig] = dict(rec)
-            else:
-                cur['count'] += rec['count']
-                if rec['size'] < cur['size']:
-                    cur.update(what=rec['what'], replay=rec['replay'], size=rec['size'])
+            RS = histbfs.deviations(
+                MOD, [(p['cfg'], p['script']) for p in stage['parts']],
+                procs=ctx.procs, deadline=deadline)
+        for part, R in zip(stage['parts'], RS):
+            states += R.states
+            trans += R.transitions
+            nontriv += R.nontrivial
+            maxd = max(maxd, R.max_depth + len(part.get('root') or []))
+            methods.update(R.methods)
+            ctx.part(part['name'], states=R.states, transitions=R.transitions,
+                     broken_states=R.broken_states, max_depth=R.max_depth,
+                     levels=R.levels, completed=R.capped is None)
+            if R.capped:
+                ctx.cap(f'{part["name"]}: {R.capped}')
+            for smp in R.samples[:2]:
+                ctx.sample({'config': part['cfg']['radixes'], **smp})
+            for (p, sig), rec in R.findings.items():
+                if p != prop:
+                    others[f'{p}:{sig}'] += rec['count']
+                    continue
+                cur = found.get(sig)
+                if cur is None:
+                    found[sig] = dict(rec)
+                else:
+                    cur['count'] += rec['count']
+                    if rec['size'] < cur['size']:
+                        cur.update(what=rec['what'], replay=rec['replay'],
+                                   size=rec['size'])
     # simplest counterexample first
     for sig, rec in sorted(found.items(), key=lambda kv: kv[1]['size']):
         ctx.violation(sig, rec['what'], rec['replay'])
